@@ -159,6 +159,19 @@ def replay(rec, typ, cls):
     new = new_span(typ, a['new'])
     new_labels = [typ.label(i, 'obj') for i in a['new']]
     kw = {} if pd_default else kwargs_for(rec)
+    # history before the reindex: label-slice and label reads on the original (whatever they cache must not leak)
+    pre_slices = []
+    if len(rec['old']) >= 1:
+        olabs = [typ.label(i, 'obj') for i in rec['old']]
+        first_var = VAR_NAME[rec['rvars'][0][0]] if rec['rvars'] else None
+        if first_var is not None and first_var in o.__dict__['index']:
+            for sl in (slice(olabs[0], olabs[-1]), slice(olabs[0], None), slice(None, olabs[-1], 2), slice(olabs[-1], olabs[-1])):
+                try:
+                    o[first_var, sl]
+                    o[first_var, olabs[0]]
+                    pre_slices.append(sl)
+                except Exception:
+                    pass
     s0 = snapshot(o)
     try:
         with warnings.catch_warnings():
@@ -191,6 +204,26 @@ def replay(rec, typ, cls):
     if list(rd['index']) != exp_index:
         found.append((f'{prefix}{fam}-variable-order', {'index': list(rd['index']), 'expected': exp_index}))
         return found
+    # label access on the result addresses the result's own span (the same slices as were read on the original)
+    if len(set(a['new'])) == len(a['new']) and rd['index']:
+        nm0 = list(rd['index'])[0]
+        for sl in pre_slices:
+            def pos(lab, default):
+                if lab is None:
+                    return default
+                hits = [i for i, x in enumerate(new_labels) if same_label(x, lab)]
+                return hits[0] if hits else None
+            i0, i1 = pos(sl.start, 0), pos(sl.stop, len(new_labels) - 1)
+            if i0 is None or i1 is None or not new_labels:
+                continue
+            try:
+                got = np.asarray(r[nm0, sl])
+            except Exception as e:
+                found.append((f'{prefix}{fam}-label-slice-on-result-raised:{type(e).__name__}', {'slice': repr(sl)}))
+                continue
+            want = np.asarray(rd['_' + nm0][i0:i1 + 1:sl.step or 1])
+            if got.shape != want.shape or not all(same(x, y) for x, y in zip(got, want)):
+                found.append((f'{prefix}{fam}-label-slice-on-result-addresses-other-periods', {'slice': repr(sl), 'got': got.tolist(), 'want': want.tolist()}))
     old_ids = set(rec['old'])
     cfg = f"fv={a['fv']}"
     for (vid, dt, role), vals in zip(rec['rvars'], rec['rvals']):
